@@ -241,6 +241,23 @@ class DefaultFormulaParser(FormulaParser):
                 of operators.
         """
 
+        # The exponent of `**` / `^` is an integer literal as written: an
+        # expression would be evaluated by the term algebra first, where e.g.
+        # `2 + 2`, `2 * 2` and `2 ** 2` all collapse to the single term `2`.
+        nodes = [ast]
+        while nodes:
+            node = nodes.pop()
+            if isinstance(node, ASTNode):
+                args = list(node.args)
+                if node.operator.symbol in ("**", "^") and isinstance(
+                    args[1], ASTNode
+                ):
+                    raise exc_for_token(
+                        args[1] if list(args[1].args) else Token(),
+                        "The right-hand argument of `**` must be a positive integer.",
+                    )
+                nodes.extend(args)
+
         terms = super().get_terms_from_ast(ast, context=context)
 
         def check_terms(terms: Iterable[Term]) -> None:
